@@ -95,7 +95,7 @@ def b_equiv(ctx):
     from pylife.materialdata.woehler.likelihood import Likelihood
     warnings.simplefilter('ignore')
     analyzers = ['Elementary', 'Probit', 'MaxLikeInf', 'MaxLikeFull']
-    ctx.bound = "seeded synthetic test series (8 load levels, 3-5 tests each, run-outs on the lower levels) x analyzers {Elementary, Probit, MaxLikeInf, MaxLikeFull} x load scales {0.5, 2, 1000} x cycle scales {0.1, 10} x 3 row permutations"
+    ctx.bound = "seeded synthetic test series (8 load levels, 3-5 tests each, run-outs on the lower levels) x analyzers {Elementary, Probit, MaxLikeInf, MaxLikeFull} x load scales {0.5, 2, 1000, 1e-4, 1e-6} x cycle scales {0.1, 10} x 3 row permutations"
     ctx.rule = "non-trivial: data set with run-outs and fractures on mixed levels; distinct by (data set, analyzer, transformation)"
     for name, df, limit in _datasets(ctx):
         for an in analyzers:
@@ -108,7 +108,7 @@ def b_equiv(ctx):
                 ctx.count(f'analyzer-raises:{an}:{type(e).__name__}')
                 continue
             ctx.case(True, key=(name, an))
-            for c in (0.5, 2.0, 1000.0):
+            for c in (0.5, 2.0, 1000.0, 1e-4, 1e-6):
                 d2 = df.copy()
                 d2['load'] = d2['load'] * c
                 got = _analyze(an, d2, limit)
